@@ -4,7 +4,7 @@
 usage: tools/mutation_campaign.py <verif-clone> <out.jsonl> <n-per-property> <ID>...
 
 For every property ID, draws n mutants (fixed seed) from the functions of the property's anchor files
-(properties.jsonl -> anchors.files; cnvlib/params.py and cnvlib/commands.py excluded), one small textual edit each:
+(properties.jsonl -> anchors.files; only the functions the anchors mention by name; cnvlib/params.py and cnvlib/commands.py excluded), one small textual edit each:
   comparison operators (< <-> <=, > <-> >=, == <-> !=), + <-> -, `and` <-> `or`, small integer constants n -> n + 1,
   a negated `if` test.
 Each mutant is written into a scratch worktree of /repo (never /repo itself) and the property's quick check of the
@@ -21,6 +21,9 @@ SKIP_FILES = {'cnvlib/params.py', 'cnvlib/commands.py'}
 props = {json.loads(l)['id']: json.loads(l) for l in open('/verif/properties.jsonl')}
 
 
+ANCHORED = None      # names of the functions the property's anchors mention (set per property in main)
+
+
 def sites_of(path, rel):
     src = open(path).read()
     lines = src.split('\n')
@@ -34,6 +37,8 @@ def sites_of(path, rel):
 
     for fn in ast.walk(tree):
         if not isinstance(fn, (ast.FunctionDef,)):
+            continue
+        if ANCHORED is not None and fn.name not in ANCHORED:
             continue
         for n in ast.walk(fn):
             if isinstance(n, ast.Compare) and len(n.ops) == 1:
@@ -78,6 +83,9 @@ def main():
         with open(OUT, 'a') as fh:
             for pid in IDS:
                 rng = random.Random(int(hashlib.sha256(pid.encode()).hexdigest()[:8], 16))
+                import re
+                global ANCHORED
+                ANCHORED = set(re.findall(r'[A-Za-z_][A-Za-z_0-9]*', json.dumps(props[pid]['anchors'])))
                 allsites = []
                 for rel in props[pid]['anchors']['files']:
                     if rel in SKIP_FILES or not os.path.exists(os.path.join(REPO, rel)):
